@@ -78,9 +78,10 @@ def make_schedules(seed, target, quick):
     scheds.append(s)
     # (b) saw-tooth across powers of two with long runs on one kept view
     s, n = [], 1
-    for top in ([8, 16, 33, 64, 70, 129] if quick else [8, 16, 33, 64, 70, 129, 255, 257]):
+    # (every power of two below is crossed downwards: a truncation of a complete tree)
+    for top in ([8, 16, 33, 64, 70, 129, 257] if quick else [8, 16, 33, 64, 70, 129, 255, 257, 513]):
         n = grow(s, n, top + rnd.randint(0, 3), 0.1)
-        n = shrink(s, n, top - rnd.randint(1, min(top - 1, 24)), 0.15)
+        n = shrink(s, n, top - rnd.randint(2, min(top - 1, 24)), 0.15)
     scheds.append(s)
     # (c) one object used for everything it can be used for (reload only when forced)
     s, n = [], 1
@@ -184,7 +185,7 @@ def consume(ctx, bindir, name, tables, inits, edges, sched, totals, ser=0):
     if res["behaviours"] != n_beh:
         raise lib.ToolError("replay ran %d of %d behaviours" % (res["behaviours"], n_beh))
     judge(ctx, res, tables, inits, edges, sched, ser)
-    for k in ("behaviours", "steps", "appends", "truncates", "reloads", "kept_views", "probes", "roundtrips",
+    for k in ("behaviours", "steps", "appends", "truncates", "reloads", "kept_views", "probes", "full_views", "roundtrips",
               "root_compares", "node_compares", "ser_records", "cs_values", "distinct_roots"):
         totals[k] = totals.get(k, 0) + res[k]
     totals["max_leaves"] = max(totals.get("max_leaves", 0), res["max_leaves"])
@@ -254,7 +255,8 @@ def run(ctx):
 def finish(ctx, totals, tables, top, starts, depth, n_scheds, target):
     if not ctx.violations:
         # vacuity guards on the binding (a behaviour that stops at a disagreement proves nothing here)
-        for k in ("appends", "truncates", "reloads", "kept_views", "probes", "roundtrips", "ser_records", "cs_values"):
+        for k in ("appends", "truncates", "reloads", "kept_views", "probes", "full_views", "roundtrips", "ser_records",
+                  "cs_values"):
             if totals.get(k, 0) == 0:
                 raise lib.ToolError("vacuity: no %s were exercised" % k)
         if totals.get("max_leaves", 0) < target:
